@@ -47,6 +47,11 @@ def api_object(g, summary, cn, rng, big=False):
     if lay:
         skip |= set(c['fields'][t]['name'] for t, e in lay['pre'])
     out = {}
+    codes = sorted(int(k) for k, v in summary.get('factory', {}).items() if v == cn and k != 'default')
+    if codes and (len(codes) > 1 or c.get('ctorType') not in codes):
+        # classes that serve several type codes: the caller picks one of them
+        ti = next(i for i, f in enumerate(c['fields']) if f['name'] == 'objectType')
+        out[ti] = codecgen.le(rng.choice(codes), 4)
     for i, f in enumerate(c['fields']):
         k = f['kind']
         nm = f['name'].split('.')[-1]
@@ -228,6 +233,10 @@ def mask_indet(summary, cn, dump):
 def compare_read(summary, a, b):
     """model vs implementation readfile answers, indeterminate members masked"""
     if a == b:
+        return True
+    if 'outcome=hang' in a and 'outcome=hang' in b:
+        return True
+    if 'outcome=oob' in a and 'outcome=crash' in b:
         return True
     da, sa, oa = split_read(a)
     db, sb, ob = split_read(b)
